@@ -123,7 +123,8 @@ type World struct {
 	llPath       string
 	llJSON       [2][]byte
 	llWhich      int
-	llStolen     bool          // a direct RefreshLogList ran since the last change of the file
+	llStolen     bool          // a direct RefreshLogList ran at some point of the run: which list the refresher last saw - and so whether the next change of the file looks like a change to it - can no longer be told; the proxy's list is not judged from then on
+	llSteals     bool          // per run: direct RefreshLogList calls are part of the workload (half of the proxy runs)
 	rootFlips    int           // lockstep spec: how often a log has changed its accepted roots
 	rootsSettled bool          // ... and the proxy's machinery has run to completion since the last such change
 	llSettled    bool          // the driver let the proxy's machinery run to completion after the last change
